@@ -25,6 +25,7 @@ EXPLANATION = (
     "edge reaches StreamExt::next again, and decode_request_payload maps WsMessage::Close to FramePayload::Close. (drain-shape) graceful drain cancels the parent token before joining, the deadline arm shuts the "
     "JoinSet down, and the writer task is held through AbortOnDrop whose Drop aborts. Not decided: enumeration of exit cause x "
     "phase x connection count; RAII makes the guarantee independent of the exit path."
+    ' For a hook list with several callback shapes every element the Drop loop takes is called (path rule from the next() is Some edge).'
 )
 ASSUMPTIONS = ["Rust drops an initialised, never-moved local exactly once on every exit (return, unwind, coroutine drop)",
                "tokio mpsc is FIFO; CancellationToken clones share one state"]
